@@ -4,7 +4,7 @@ from __future__ import annotations
 from ..core import Report
 from ..model import DIST, TRANSFORMED, Program
 from ..refs import eval_ref_function, eval_ref_method
-from ..terms import C, Interp, find_unknown, has_unknown, same, show, walk
+from ..terms import C, Interp, find_unknown, has_unknown, same, show, subst, walk
 from .bij import SELF, method_site
 from .c07 import compare
 from .merge import rule_merge_transforms
@@ -73,6 +73,20 @@ def rule_wire(prog, rep, R):
     for m, (args, src, what) in WIRE.items():
         got = Interp(prog).eval_method(base, m, args)
         want = eval_ref_method(prog, base, src, args)
+        if has_unknown(got):
+            # a core working on the flattened form, `dist = self.merge_transforms()`: an equivalent Transformed pair
+            # (decided by C03.merge / C03.flatten), as long as base distribution AND bijection are both taken from it
+            g2 = Interp(prog, no_inline={TRANSFORMED + ".merge_transforms"}).eval_method(base, m, args)
+            M = ("call", ("attr", SELF, "merge_transforms"), (), ())
+            if not has_unknown(g2) and any(s == M for s in walk(g2)):
+                raw = sorted({s[2] for s in walk(g2) if s[0] == "attr" and s[1] == SELF and s[2] in ("base_dist", "bijection")})
+                if raw:
+                    rep.violated(R, method_site(prog, base, m), f"{base.qualname}.{m}",
+                                 f"takes part of the (base_dist, bijection) pair from self.merge_transforms() and self.{raw[0]} "
+                                 f"from the unmerged distribution - for a nested transformed distribution these belong to "
+                                 f"different levels: {show(g2, 200)}")
+                    continue
+                got = subst(g2, lambda s: SELF if s == M else None)
         compare(rep, R, method_site(prog, base, m), f"{base.qualname}.{m}", got, want, what)
     for c in prog.subclasses(TRANSFORMED):
         for m, (args, src, what) in WIRE.items():
